@@ -254,6 +254,7 @@ def run_check(pid, tier, replay=None):
     any_exh = False
     hash_files = []
     capped = False
+    counted = 0
     for v, r in all_results:
         out = r["env"]["VERIF_OUT"]
         doc = None
@@ -285,6 +286,8 @@ def run_check(pid, tier, replay=None):
                 e["requested"] += c["requested"]; e["completed"] += c["completed"]; e["failed"] |= c.get("failed", False)
             any_exh |= bool(doc.get("exhaustive"))
             capped |= bool(doc.get("hash_capped"))
+            if r["tag"].startswith(builds[0]["name"] + "-"):
+                counted += int(doc.get("counted", 0))  # enumerated parts are identical in every build variant
             hash_files.append(r["env"]["VERIF_HASHES"])
         rc = r["rc"]
         if rc == "timeout":
@@ -315,7 +318,7 @@ def run_check(pid, tier, replay=None):
         if not c["failed"] and c["completed"] < c["requested"]:
             inconclusive.append("check %s completed %d of %d requested cases" % (name, c["completed"], c["requested"]))
 
-    distinct = merge_distinct(first_bin, hash_files)
+    distinct = merge_distinct(first_bin, hash_files) + counted
     wall = time.time() - t0
     rule = cfg["rule"]
     if capped:
@@ -410,7 +413,7 @@ def manifest():
         "hooks": {
             "guard": "verif",
             "enable": "go build tag: -tags verif (no hook code exists in /repo at present; all observation is through the public API)",
-            "baseline_off_cmd": "cd /repo && go test -mod=mod -vet=off -count=1 ./... && cd /repo/proto/fixtures && go test -mod=mod -vet=off -count=1 ./...",
+            "baseline_off_cmd": "for m in . ./proto/fixtures; do (cd /repo/$m && go test -mod=mod -vet=off -count=1 ./...); done",
             "source_commits": [],
             "add_only": True,
         },
@@ -431,7 +434,7 @@ NOT_YET = {}
 
 # Properties whose check has been reviewed, is silent on the unchanged tree at several seeds and has
 # caught seeded mutations; only these are claimed in MANIFEST.json.
-REGISTERED = ["C01", "C02", "C18", "C20"]
+REGISTERED = ["C01", "C02", "C05", "C18", "C20"]
 
 
 def main(argv):
